@@ -63,6 +63,7 @@ NoStreams == {<<>>}
 \* two frames of short blocks for the behaviour export of the part "size"
 StreamsP == {<<2, 1, 2, 1, 2, 1, 0>>, <<2, 1, 2, 1, 2, 1, 2, 1, 0>>}
 Q68 == {6, 8}
+Q1to8 == 1..8
 OpsAll == {"peek", "reset", "size"}
 OpsSize == {"size"}
 StreamsQ == {s \o <<0>> : s \in [1..6 -> {1, 2}]}
